@@ -15,6 +15,11 @@ CHECKS = {
    text="The domain is finite (159 leaf interface classes, 167 hooks, 158 accept instantiations) and is read off the current sources on every run, so the theorems of coq/Properties_C06.v (own category code; accept selects the class's own hook; every default hook is one call to the nearest abstract super-category; a sinks-only visitor gets exactly one call at the nearest sink; view<K> non-null iff K is the node's category; codes/classes/hooks in bijection) are re-checked against what the code says now. A driver then runs category/accept/view on a node of every implementation class and compares with the model's prediction extracted from the same tables.",
    note="Trusted: Coq kernel, the fact extractor (clang 14 AST + reflection probe compiled by g++), extraction, harness/zoo.h coverage (reported: 159/159 categories). Virtual dispatch itself is modelled by the tables, not verified.",
    ref="DESIGN.md §6 C06"),
+ "C10": dict(
+   technique="Coq proof (bit lemmas on N for any table of distinct words: decompose(union S) = S for every subset, set-operation laws, refusal) instantiated at tables regenerated from src/impl.cxx; exhaustive run of all 2^18 + 2^3 subsets on the implementation against the extracted model",
+   text="Bits.v proves the inverse-pair law for every list of basic names (any order, repetitions), the set-operation laws for lor/land/lxor/implies and refusal of unknown names, for an arbitrary table of at most 32 distinct words; Properties_C10.v discharges the side conditions on the tables read from the current source (NoDup, length, constexpr) and checks every named accessor body against its documented word. The implementation is then run on all subsets, on seeded pairs, on every accessor and on reserved/near-miss/random unknown names and compared line by line with the extracted model.",
+   note="Trusted: Coq kernel, extractor, extraction, c10_driver. Basic_specifier equality is pointer equality of logograms (as in the code); the harness obtains logograms through get_logogram.",
+   ref="DESIGN.md §6 C10"),
 }
 
 NOT_YET = {}
